@@ -94,6 +94,41 @@ func runC11(ci interface{}) Result {
 			return r
 		}
 	}
+	// two goroutines polling Completed and Aborted at the same time: each sees a
+	// history of its own that obeys the same rules, and both agree with the read
+	// made just before
+	if len(tr.Polls) > 0 {
+		r.Classes = append(r.Classes, "concurrent-getters")
+	}
+	for _, pr := range tr.Polls {
+		var before *engine.GetRec
+		for i := range tr.Gets {
+			if tr.Gets[i].Step == pr.Step && tr.Gets[i].Bar == pr.Bar {
+				before = &tr.Gets[i]
+			}
+		}
+		seen := false
+		for k, v := range pr.Vals {
+			if seen && !v {
+				r.Err, r.Kind = fmt.Errorf("bar %d, step %d: %s() polled by one goroutine (while another polls the other getter) returned true and later false (call %d of %d)", pr.Bar, pr.Step, pr.Getter, k+1, len(pr.Vals)), "getter-history"
+				return r
+			}
+			seen = seen || v
+			if before != nil {
+				want, fixed := false, false
+				switch {
+				case before.Completed:
+					want, fixed = pr.Getter == "completed", true
+				case before.Aborted:
+					want, fixed = pr.Getter == "aborted", true
+				}
+				if fixed && v != want {
+					r.Err, r.Kind = fmt.Errorf("bar %d, step %d: the bar had just reported completed=%v aborted=%v, then %s() polled concurrently with the other getter returned %v (call %d of %d)", pr.Bar, pr.Step, before.Completed, before.Aborted, pr.Getter, v, k+1, len(pr.Vals)), "getter-history"
+					return r
+				}
+			}
+		}
+	}
 	// what the frames show, frame by frame
 	shown := map[int][]c11Obs{}
 	for k, f := range tr.Frames() {
